@@ -1,1 +1,312 @@
-//! placeholder (filled in with C15/C17/C18)
+//! Loopback HTTP/1.1 S3 simulator.
+//!
+//! One listener per process; "worlds" (bucket contents + fault script) are registered under a site
+//! identifier and every request is routed to the world whose site occurs in the request target, so
+//! that many scenarios can run concurrently against one endpoint.  Each world records the requests
+//! it received (second observation channel) and may gate a response until the harness releases it.
+
+use std::collections::HashMap;
+use std::io::{Read, Write};
+use std::net::{TcpListener, TcpStream};
+use std::sync::{Arc, Condvar, Mutex, OnceLock};
+use std::time::Duration;
+
+#[derive(Clone, Debug)]
+pub struct Request {
+    pub method: String,
+    /// raw request target as received
+    pub target: String,
+    /// percent-decoded path, e.g. "/noaa-nexrad-level2/2024/08/04/KDMX/name"
+    pub path: String,
+    /// percent-decoded query pairs in order
+    pub query: Vec<(String, String)>,
+}
+
+impl Request {
+    pub fn query_value(&self, key: &str) -> Option<&str> {
+        self.query.iter().find(|(k, _)| k == key).map(|(_, v)| v.as_str())
+    }
+    pub fn bucket(&self) -> &str {
+        self.path.trim_start_matches('/').split('/').next().unwrap_or("")
+    }
+    /// object key (path after the bucket), empty for bucket-level requests
+    pub fn key(&self) -> &str {
+        let p = self.path.trim_start_matches('/');
+        match p.find('/') {
+            Some(i) => &p[i + 1..],
+            None => "",
+        }
+    }
+    pub fn is_list(&self) -> bool {
+        self.key().is_empty()
+    }
+}
+
+#[derive(Default)]
+pub struct Gate {
+    open: Mutex<bool>,
+    cv: Condvar,
+}
+
+impl Gate {
+    pub fn new() -> Arc<Gate> {
+        Arc::new(Gate::default())
+    }
+    pub fn open(&self) {
+        *self.open.lock().unwrap_or_else(|e| e.into_inner()) = true;
+        self.cv.notify_all();
+    }
+    /// Waits until opened (bounded: a forgotten gate must not hang the server thread forever).
+    pub fn wait(&self) {
+        let mut g = self.open.lock().unwrap_or_else(|e| e.into_inner());
+        let mut waited = 0;
+        while !*g && waited < 600 {
+            let (ng, _) = self.cv.wait_timeout(g, Duration::from_millis(100)).unwrap_or_else(|e| e.into_inner());
+            g = ng;
+            waited += 1;
+        }
+    }
+}
+
+pub struct Response {
+    pub status: u16,
+    pub headers: Vec<(String, String)>,
+    pub body: Vec<u8>,
+    /// declare this Content-Length instead of body.len() (to simulate a truncated transfer)
+    pub declared_length: Option<usize>,
+    /// hold the response until the gate opens
+    pub gate: Option<Arc<Gate>>,
+    /// notify this gate when the request has been received (before waiting on `gate`)
+    pub arrived: Option<Arc<Gate>>,
+}
+
+impl Response {
+    pub fn new(status: u16, body: Vec<u8>) -> Self {
+        Response { status, headers: Vec::new(), body, declared_length: None, gate: None, arrived: None }
+    }
+    pub fn xml(body: String) -> Self {
+        let mut r = Response::new(200, body.into_bytes());
+        r.headers.push(("Content-Type".into(), "application/xml".into()));
+        r
+    }
+    pub fn header(mut self, k: &str, v: &str) -> Self {
+        self.headers.push((k.to_string(), v.to_string()));
+        self
+    }
+}
+
+pub trait World: Send {
+    fn handle(&mut self, req: &Request) -> Response;
+}
+
+type WorldRef = Arc<Mutex<dyn World>>;
+
+pub struct Server {
+    pub port: u16,
+    worlds: Mutex<HashMap<String, WorldRef>>,
+}
+
+static SERVER: OnceLock<Arc<Server>> = OnceLock::new();
+
+/// Starts the process-wide simulator (idempotent) and points the code under test at it.
+/// Must be called before any worker thread issues a request.
+pub fn global() -> Arc<Server> {
+    SERVER
+        .get_or_init(|| {
+            let listener = TcpListener::bind("127.0.0.1:0").expect("bind loopback");
+            let port = listener.local_addr().expect("addr").port();
+            let server = Arc::new(Server { port, worlds: Mutex::new(HashMap::new()) });
+            std::env::set_var("NEXRAD_VERIF_S3_ENDPOINT", format!("http://127.0.0.1:{}", port));
+            // reqwest honours proxy variables; a loopback simulator must never be proxied
+            for v in ["http_proxy", "HTTP_PROXY", "https_proxy", "HTTPS_PROXY", "all_proxy", "ALL_PROXY"] {
+                std::env::remove_var(v);
+            }
+            std::env::set_var("NO_PROXY", "127.0.0.1,localhost");
+            let s2 = server.clone();
+            std::thread::Builder::new()
+                .name("s3sim-accept".into())
+                .spawn(move || {
+                    for stream in listener.incoming() {
+                        let stream = match stream {
+                            Ok(s) => s,
+                            Err(_) => continue,
+                        };
+                        let s3 = s2.clone();
+                        let _ = std::thread::Builder::new().name("s3sim-conn".into()).stack_size(256 << 10).spawn(move || {
+                            let _ = s3.serve(stream);
+                        });
+                    }
+                })
+                .expect("spawn accept thread");
+            server
+        })
+        .clone()
+}
+
+fn percent_decode(s: &str, plus_is_space: bool) -> String {
+    let b = s.as_bytes();
+    let mut out = Vec::with_capacity(b.len());
+    let mut i = 0;
+    while i < b.len() {
+        if b[i] == b'%' && i + 3 <= b.len() {
+            let hex = std::str::from_utf8(&b[i + 1..i + 3]).ok().and_then(|h| u8::from_str_radix(h, 16).ok());
+            if let Some(v) = hex {
+                out.push(v);
+                i += 3;
+                continue;
+            }
+        }
+        if plus_is_space && b[i] == b'+' {
+            out.push(b' ');
+        } else {
+            out.push(b[i]);
+        }
+        i += 1;
+    }
+    String::from_utf8_lossy(&out).to_string()
+}
+
+impl Server {
+    pub fn register(&self, site: &str, world: WorldRef) {
+        self.worlds.lock().unwrap_or_else(|e| e.into_inner()).insert(site.to_string(), world);
+    }
+    pub fn unregister(&self, site: &str) {
+        self.worlds.lock().unwrap_or_else(|e| e.into_inner()).remove(site);
+    }
+
+    fn route(&self, req: &Request) -> Option<WorldRef> {
+        let worlds = self.worlds.lock().unwrap_or_else(|e| e.into_inner());
+        let hay = format!("{} {}", req.path, req.query.iter().map(|(k, v)| format!("{}={}", k, v)).collect::<Vec<_>>().join("&"));
+        worlds.iter().find(|(site, _)| hay.contains(site.as_str())).map(|(_, w)| w.clone())
+    }
+
+    fn serve(&self, mut stream: TcpStream) -> std::io::Result<()> {
+        stream.set_read_timeout(Some(Duration::from_secs(30)))?;
+        stream.set_nodelay(true)?;
+        let mut buf = Vec::new();
+        let mut tmp = [0u8; 2048];
+        loop {
+            let n = stream.read(&mut tmp)?;
+            if n == 0 {
+                break;
+            }
+            buf.extend_from_slice(&tmp[..n]);
+            if buf.windows(4).any(|w| w == b"\r\n\r\n") || buf.len() > 65_536 {
+                break;
+            }
+        }
+        let head = String::from_utf8_lossy(&buf).to_string();
+        let line = head.lines().next().unwrap_or("");
+        let mut parts = line.split(' ');
+        let method = parts.next().unwrap_or("").to_string();
+        let target = parts.next().unwrap_or("").to_string();
+        let (raw_path, raw_query) = match target.find('?') {
+            Some(i) => (&target[..i], &target[i + 1..]),
+            None => (&target[..], ""),
+        };
+        let query = raw_query
+            .split('&')
+            .filter(|s| !s.is_empty())
+            .map(|kv| match kv.find('=') {
+                Some(i) => (percent_decode(&kv[..i], true), percent_decode(&kv[i + 1..], true)),
+                None => (percent_decode(kv, true), String::new()),
+            })
+            .collect();
+        let req = Request { method, target: target.clone(), path: percent_decode(raw_path, false), query };
+        let resp = match self.route(&req) {
+            Some(w) => w.lock().unwrap_or_else(|e| e.into_inner()).handle(&req),
+            None => Response::new(404, b"<Error><Code>NoSuchBucketOrSite</Code></Error>".to_vec()),
+        };
+        if let Some(a) = &resp.arrived {
+            a.open();
+        }
+        if let Some(g) = &resp.gate {
+            g.wait();
+        }
+        let reason = match resp.status {
+            200 => "OK",
+            403 => "Forbidden",
+            404 => "Not Found",
+            500 => "Internal Server Error",
+            503 => "Service Unavailable",
+            _ => "Status",
+        };
+        let mut out = format!("HTTP/1.1 {} {}\r\nConnection: close\r\nContent-Length: {}\r\n", resp.status, reason, resp.declared_length.unwrap_or(resp.body.len()));
+        for (k, v) in &resp.headers {
+            out.push_str(&format!("{}: {}\r\n", k, v));
+        }
+        out.push_str("\r\n");
+        stream.write_all(out.as_bytes())?;
+        stream.write_all(&resp.body)?;
+        stream.flush()?;
+        // let the client close first where possible, so that TIME_WAIT lands on its side of the pair
+        let _ = stream.shutdown(std::net::Shutdown::Write);
+        let _ = stream.set_read_timeout(Some(Duration::from_millis(2000)));
+        let mut sink = [0u8; 256];
+        while let Ok(n) = stream.read(&mut sink) {
+            if n == 0 {
+                break;
+            }
+        }
+        Ok(())
+    }
+}
+
+/// XML-escapes text the way S3 does (entity references, never CDATA).
+pub fn xml_escape(s: &str) -> String {
+    let mut o = String::with_capacity(s.len());
+    for c in s.chars() {
+        match c {
+            '&' => o.push_str("&amp;"),
+            '<' => o.push_str("&lt;"),
+            '>' => o.push_str("&gt;"),
+            '"' => o.push_str("&quot;"),
+            '\'' => o.push_str("&apos;"),
+            _ => o.push(c),
+        }
+    }
+    o
+}
+
+#[derive(Clone, Debug)]
+pub struct ListedObject {
+    pub key: String,
+    pub last_modified: String,
+    pub size: String,
+}
+
+/// Renders a ListObjectsV2 result document.
+pub fn list_document(bucket: &str, prefix: &str, objects: &[ListedObject], truncated: bool, pretty: bool, extras: bool, max_keys: Option<usize>) -> String {
+    let nl = if pretty { "\n  " } else { "" };
+    let mut s = String::from("<?xml version=\"1.0\" encoding=\"UTF-8\"?>\n<ListBucketResult xmlns=\"http://s3.amazonaws.com/doc/2006-03-01/\">");
+    s.push_str(&format!("{}<Name>{}</Name>", nl, xml_escape(bucket)));
+    s.push_str(&format!("{}<Prefix>{}</Prefix>", nl, xml_escape(prefix)));
+    if extras {
+        s.push_str(&format!("{}<KeyCount>{}</KeyCount>", nl, objects.len()));
+    }
+    s.push_str(&format!("{}<MaxKeys>{}</MaxKeys>", nl, max_keys.unwrap_or(1000)));
+    s.push_str(&format!("{}<IsTruncated>{}</IsTruncated>", nl, if truncated { "true" } else { "false" }));
+    for o in objects {
+        let nl2 = if pretty { "\n    " } else { "" };
+        s.push_str(&format!("{}<Contents>", nl));
+        s.push_str(&format!("{}<Key>{}</Key>", nl2, xml_escape(&o.key)));
+        s.push_str(&format!("{}<LastModified>{}</LastModified>", nl2, xml_escape(&o.last_modified)));
+        if extras {
+            s.push_str(&format!("{}<ETag>&quot;9b2cf535f27731c974343645a3985328&quot;</ETag>", nl2));
+        }
+        s.push_str(&format!("{}<Size>{}</Size>", nl2, xml_escape(&o.size)));
+        if extras {
+            s.push_str(&format!("{}<Owner><ID>abc</ID><DisplayName>noaa</DisplayName></Owner>", nl2));
+            s.push_str(&format!("{}<StorageClass>STANDARD</StorageClass>", nl2));
+        }
+        s.push_str(&format!("{}</Contents>", nl));
+    }
+    if truncated && extras {
+        s.push_str(&format!("{}<NextContinuationToken>1ueGcxLPRx1Tr/XYExHnhbYLgveDs2J/wm36Hy4vbOwM=</NextContinuationToken>", nl));
+    }
+    if pretty {
+        s.push('\n');
+    }
+    s.push_str("</ListBucketResult>");
+    s
+}
